@@ -87,6 +87,9 @@ func accessPath(v ssa.Value) string {
 		return accessPath(x.X) + "." + n
 	case *ssa.UnOp:
 		if x.Op == token.MUL {
+			if s := spilled(x.X); s != nil {
+				return accessPath(s)
+			}
 			return accessPath(x.X)
 		}
 		return x.Name()
@@ -109,6 +112,9 @@ func accessPath(v ssa.Value) string {
 	case *ssa.Global:
 		return x.Name()
 	case *ssa.Alloc:
+		if s := spilled(x); s != nil {
+			return accessPath(s)
+		}
 		if x.Comment != "" {
 			return "&" + x.Comment + "#" + x.Name()
 		}
@@ -1066,4 +1072,162 @@ func appendedValues(v ssa.Value) (base ssa.Value, elems []ssa.Value, spread ssa.
 		}
 	}
 	return base, elems, nil, true
+}
+
+// spilled: go/ssa spills parameters and captured variables into an Alloc with a single store
+// (`t0 = new *T (h); *t0 = h`). If a is such a cell, returns the stored value, else nil.
+func spilled(a ssa.Value) ssa.Value {
+	al, ok := a.(*ssa.Alloc)
+	if !ok || al.Referrers() == nil {
+		return nil
+	}
+	var val ssa.Value
+	n := 0
+	for _, r := range *al.Referrers() {
+		if st, isSt := r.(*ssa.Store); isSt && st.Addr == ssa.Value(al) {
+			val = st.Val
+			n++
+		}
+	}
+	if n == 1 {
+		return val
+	}
+	return nil
+}
+
+// canon strips conversions and looks through spill cells: the result identifies "the same
+// variable" for parameters and single-assignment locals.
+func canon(v ssa.Value) ssa.Value {
+	for i := 0; i < 8; i++ {
+		v = stripConv(v)
+		if u, ok := v.(*ssa.UnOp); ok && u.Op == token.MUL {
+			if s := spilled(u.X); s != nil {
+				v = s
+				continue
+			}
+			// a load of a captured cell inside a closure: resolve through the binding when the
+			// closure has exactly one creation site
+			if fv, isFV := u.X.(*ssa.FreeVar); isFV {
+				if b := freeVarBinding(fv); b != nil {
+					if s := spilled(b); s != nil {
+						v = s
+						continue
+					}
+				}
+			}
+		}
+		if a, ok := v.(*ssa.Alloc); ok {
+			if s := spilled(a); s != nil {
+				v = s
+				continue
+			}
+		}
+		return v
+	}
+	return v
+}
+
+// freeVarBinding returns the value bound to fv when its closure is created at exactly one site.
+func freeVarBinding(fv *ssa.FreeVar) ssa.Value {
+	fn := fv.Parent()
+	if fn == nil || fn.Parent() == nil {
+		return nil
+	}
+	idx := -1
+	for i, f := range fn.FreeVars {
+		if f == fv {
+			idx = i
+		}
+	}
+	if idx < 0 {
+		return nil
+	}
+	var found ssa.Value
+	n := 0
+	instrsOf(fn.Parent(), func(in ssa.Instruction) {
+		if mc, ok := in.(*ssa.MakeClosure); ok && mc.Fn == ssa.Value(fn) && idx < len(mc.Bindings) {
+			found = mc.Bindings[idx]
+			n++
+		}
+	})
+	if n == 1 {
+		return found
+	}
+	return nil
+}
+
+// constFloat returns the numeric value of a constant as float64.
+func constFloat(c *ssa.Const) (float64, bool) {
+	if c == nil || c.Value == nil {
+		return 0, false
+	}
+	switch c.Value.Kind() {
+	case constant.Int, constant.Float:
+		f, _ := constant.Float64Val(constant.ToFloat(c.Value))
+		return f, true
+	}
+	return 0, false
+}
+
+// ---- memory cells (locals whose address is taken stay Allocs with several stores) ---------------
+
+// cellStores returns the whole-cell stores to al.
+func cellStores(al *ssa.Alloc) []*ssa.Store {
+	var out []*ssa.Store
+	if al.Referrers() == nil {
+		return nil
+	}
+	for _, r := range *al.Referrers() {
+		if st, ok := r.(*ssa.Store); ok && st.Addr == ssa.Value(al) {
+			out = append(out, st)
+		}
+	}
+	return out
+}
+
+// reachingStores returns the whole-cell stores to al that may reach instruction at (backward
+// walk), and whether the function entry reaches it without any store (zero value).
+func reachingStores(al *ssa.Alloc, at ssa.Instruction) (stores []*ssa.Store, fromEntry bool) {
+	isStore := func(in ssa.Instruction) *ssa.Store {
+		if st, ok := in.(*ssa.Store); ok && st.Addr == ssa.Value(al) {
+			return st
+		}
+		return nil
+	}
+	seen := map[*ssa.BasicBlock]bool{}
+	found := map[*ssa.Store]bool{}
+	var back func(b *ssa.BasicBlock, i int)
+	back = func(b *ssa.BasicBlock, i int) {
+		for ; i >= 0; i-- {
+			if st := isStore(b.Instrs[i]); st != nil {
+				if !found[st] {
+					found[st] = true
+					stores = append(stores, st)
+				}
+				return
+			}
+		}
+		if len(b.Preds) == 0 {
+			fromEntry = true
+			return
+		}
+		for _, p := range b.Preds {
+			if !seen[p] {
+				seen[p] = true
+				back(p, len(p.Instrs)-1)
+			}
+		}
+	}
+	back(at.Block(), instrIndex(at)-1)
+	return
+}
+
+// cellOf: if v is a load of a multi-store local cell returns the cell.
+func cellOf(v ssa.Value) *ssa.Alloc {
+	if u, ok := stripConv(v).(*ssa.UnOp); ok && u.Op == token.MUL {
+		if al, isAl := u.X.(*ssa.Alloc); isAl && spilled(al) == nil {
+			return al
+		}
+	}
+	return nil
 }
